@@ -75,7 +75,8 @@ vlib.standard_check({
                             "statement_histogram": t.get("hist", {})},
     "rule": "programs generated from the seed over the AST of C05/Model.lean (declarations, defaults, assignments to whole signals / slices / bits / "
             "dynamic bits, parts and slices incl. nested selections, operators, width-less variables from integer literals / zext / oext (UInt and SInt) re-assigned "
-            "wider / narrower / equal literals and each other inside and outside IF / ELSE with copies and comparisons, the alias-cache pattern, IF / ELSE / ELSEIF / two-scope ELSE IF chains that often repeat a condition "
+            "wider / narrower / equal literals and each other inside and outside IF / ELSE with copies and comparisons, the alias-cache pattern, "
+            "ENIF / IF nests (depth 1..4, any order, ELSE branches) around reg() and memory writes whose ENABLE / wrEnable input is observed, IF / ELSE / ELSEIF / two-scope ELSE IF chains that often repeat a condition "
             "signal, nesting to the given depth, locals inside scopes) + 1/40 malformed programs the frontend must reject; each program is executed against the "
             "real frontend (ConditionalScope objects on the C++ stack), simulated for all input valuations (<= 10 input bits, random sample otherwise) before and "
             "after postprocess(); every valuation is compared with the sequential interpreter (PROPFAIL) and with eval(build) of the Lean model (DIFF); "
@@ -91,6 +92,9 @@ vlib.standard_check({
                   "Exceptions thrown by postprocess() are counted observations (OBS), not verdicts; a value changed by postprocess() is reported.",
     "assumptions": ["C++ control flow around the macros (loops, early exits, exceptions inside a scope), Compound/struct assignment, registers/EnableScope, "
                     "BVec, SInt beyond literal-initialised variables (compare / assign), reads of never-driven signals (loop semantics) are not modelled",
+                    "enable scopes: the observed effect of reg() / mem[a]=d is the value of the node driving the ENABLE / wrEnable input per input valuation "
+                    "(update happens iff all enclosing IF and ENIF conditions hold: theorems C05_enable_is_conjunction / C05_enable_push_step on the modelled "
+                    "EnableScope stack); what registers and memories store over time is C04/C07's business",
                     "width-less variables (integer literals, zext/oext; width growth) are modelled by buildX/runX (C05/ModelX.lean, sequential semantics on integers) and "
                     "covered by correspondence plus the statement-level theorems C05_int_padding_preserves_integer / C05_int_conditional_assign; the program-level "
                     "theorem C05_sequential is about the fixed-width fragment (build/run)",
